@@ -24,7 +24,7 @@ EXPLANATION = (
     "where it stopped (chunks compose, whether the register inversion lives in the core or in the entry "
     "points), and an empty chunk changes nothing; (5) the page-header parser sets has_crc to a constant "
     "true in the arm that reads field 4, whatever the stored value. A page whose load failed is retried at the same position, not stepped over (carquet_read_next_page "
-    "executed abstractly over page states x a failing load; rule shared with C02.2). The writer side is decided on the finaliser's abstract execution (48 configurations): a CRC value is an opaque term naming the byte ranges folded into it, in order, by carquet_crc32 or chained carquet_crc32_update calls, and PageHeader.crc must cover exactly the stored payload in stored order. Decides these clauses, not equality "
+    "executed abstractly over page states x a failing load; rule shared with C02.2). The writer side is decided on the finaliser's abstract execution (48 configurations): a CRC value is an opaque term naming the byte ranges folded into it, in order, by carquet_crc32 or chained carquet_crc32_update calls, and PageHeader.crc must cover exactly the stored payload in stored order. (9) damaged compressed bodies with verification off: the built-in block decompressors on the invalid forms of the C10 format grid - refused, and no byte outside the stream or the destination touched. Decides these clauses, not equality "
     "with zlib for all inputs nor the CRC's error-detection algebra.")
 
 PR = "src/reader/page_reader.c"
@@ -46,6 +46,11 @@ def run(ctx):
     ctx.clause("C14.3 reflected IEEE polynomial constant")
     ctx.clause("C14.4 CRC routine reads every input byte exactly within bounds (skeleton execution)")
     ctx.clause("C14.5 a stored CRC is never ignored: the header parser sets has_crc whenever field 4 is present")
+    ctx.clause("C14.9 with verification off a damaged compressed page body is still handled inside its buffers: the built-in Snappy and LZ4 decompressors refuse the invalid "
+               "element forms of the format grid (length fields with their top bit set, offsets past the output, cut-off elements and preambles) without touching a byte outside (rule shared with C10)")
+    from ..rules import blockfmt
+    nbf = blockfmt.check(ctx)
+    ctx.floor("C14 format-built streams through the block decompressors", nbf, 80)
     ctx.clause("C14.8 with verification off a damaged level-length prefix is still handled inside the page (rule shared with C04.12)")
     from ..rules import pageread
     pageread.check_level_extents(ctx)
